@@ -20,7 +20,7 @@ MAT = {"rho": 0.5, "bcoh": 2.0, "btot": 3.0}
 
 def generate(rng, tier):
     cases = []
-    datasets = [([0, 1, 2, 3, 5], [1, 2, 3, 5, 4], [1, 0, 2, 1, 3])]
+    datasets = [([0, 1, 2, 3, 5], [1, 2, 3, 5, 4], [1, 0, 2, 1, 3]), ([-2, -1, 0, 1, 3], [2, 1, 3, 4, 5], [1, 2, 0, 1, 1])]
     if tier == "thorough":
         for _ in range(3):
             n = rng.randint(2, 9)
